@@ -494,9 +494,56 @@ def stuck_cycles(func):
                     # path that skips the progress statement
                     work.append(list(c))
                     continue
+                if not _consistent_cycle(func, set(c)):
+                    # every way round this cycle answers one and the same question (same condition text, nothing changed
+                    # in between) once with yes and once with no: not a path of the program
+                    continue
                 out.append((comp, [b.cond for b in exits], c[0]))
                 break
     return out
+
+
+def _consistent_cycle(func, nodes, limit=20000):
+    """is there a cycle inside `nodes` on which textually identical branch conditions are always decided the same way?
+    (Used for cycles on which nothing changes: there, equal questions have equal answers.)"""
+    from .facts import render
+    steps = [0]
+
+    def dfs(start, cur, path_blocks, answers):
+        steps[0] += 1
+        if steps[0] > limit:
+            return True         # give up: assume feasible (the conservative answer for a "stuck" verdict)
+        blk = func.blocks[cur]
+        succs = [(k, s2) for k, (s2, u) in enumerate(blk.all_succs) if s2 is not None and not u and s2 in nodes]
+        for k, s2 in succs:
+            ans = answers
+            if blk.cond is not None and len(blk.all_succs) == 2:
+                from .facts import strip as _strip
+                c0 = _strip(blk.cond)
+                kk = k
+                while c0 is not None and c0.k == 'UnaryOperator' and c0.get('op') == '!':
+                    c0 = _strip(c0.ch[0])
+                    kk = 1 - kk
+                if c0 is not None and c0.k == 'BinaryOperator' and c0.get('op') in ('==', '!='):
+                    a_, b_ = sorted([render(c0.ch[0]), render(c0.ch[1])])
+                    key = '%s == %s' % (a_, b_)
+                    if c0['op'] == '!=':
+                        kk = 1 - kk         # `x != c` answered yes is `x == c` answered no
+                else:
+                    key = render(c0) if c0 is not None else render(blk.cond)
+                if key in answers and answers[key] != kk:
+                    continue
+                if key not in answers:
+                    ans = dict(answers)
+                    ans[key] = kk
+            if s2 == start:
+                return True
+            if s2 in path_blocks:
+                continue
+            if dfs(start, s2, path_blocks | {s2}, ans):
+                return True
+        return False
+    return any(dfs(b0, b0, {b0}, {}) for b0 in sorted(nodes))
 
 
 def _sccs_sub(func, nodes):
